@@ -274,3 +274,51 @@ func runAllSolvers(workDir string, o *Obligation, timeoutS int) map[string]strin
 	wg.Wait()
 	return res
 }
+
+// seedStability re-runs a discharged obligation under other z3 random seeds: how many of the seeds still give unsat
+// (on the full script or, where there is one, the lite script, default or Groebner-free arithmetic) within the timeout,
+// and whether cvc5 (seed-independent) proves it.
+func seedStability(workDir string, o *Obligation, seeds []int, timeoutS int) (okSeeds int, cvc5ok bool) {
+	h := sha256.Sum256([]byte(o.Script))
+	file := filepath.Join(workDir, "s-"+hex.EncodeToString(h[:8])+".smt2")
+	os.WriteFile(file, []byte(o.Script), 0o644)
+	lfile := ""
+	if o.Lite != "" {
+		lfile = filepath.Join(workDir, "s-"+hex.EncodeToString(h[:8])+".lite.smt2")
+		os.WriteFile(lfile, []byte(o.Lite), 0o644)
+	}
+	one := func(args ...string) bool {
+		cctx, cancel := context.WithTimeout(context.Background(), time.Duration(timeoutS+2)*time.Second)
+		defer cancel()
+		out, _ := exec.CommandContext(cctx, args[0], args[1:]...).CombinedOutput()
+		for _, l := range strings.Split(string(out), "\n") {
+			l = strings.TrimSpace(l)
+			if l == "" || strings.HasPrefix(l, "WARNING") {
+				continue
+			}
+			return l == "unsat"
+		}
+		return false
+	}
+	for _, sd := range seeds {
+		seed := "smt.random_seed=" + fmtInt(sd)
+		t := "-T:" + fmtInt(timeoutS)
+		ok := one("z3-new", t, seed, file)
+		if !ok && lfile != "" {
+			ok = one("z3-new", t, seed, lfile) || one("z3-new", t, seed, "smt.arith.nl.grobner=false", lfile)
+		}
+		if !ok {
+			ok = one("z3-new", t, seed, "smt.mbqi=false", file)
+		}
+		if ok {
+			okSeeds++
+		}
+	}
+	if okSeeds < len(seeds) {
+		cvc5ok = one("cvc5", "--tlimit="+fmtInt(timeoutS*1000), file)
+		if !cvc5ok && lfile != "" {
+			cvc5ok = one("cvc5", "--tlimit="+fmtInt(timeoutS*1000), lfile)
+		}
+	}
+	return
+}
